@@ -242,8 +242,34 @@ def ob_csv_channel(h):
             loaded = p.load(tmp)
             r_csv = p.target()
             r_dict = pinch_analysis_service(d, project_name=tmp.name)
-        key = lambda r: sorted((t.name, round(float(_v(t.Qh)), 6), round(float(_v(t.Qc)), 6), round(float(_v(t.Qr)), 6)) for t in r.targets)
+            # the same problem through the other channels the wrapper offers: CSV pair, JSON file, validated model, plain numbers
+            q = pp.PinchProblem(run=False)
+            q.load((tmp / "streams.csv", tmp / "utilities.csv"))
+            r_pair = q.target()
+            jf = tmp / (tmp.name + ".json")
+            jf.write_text(json.dumps(d))
+            j = pp.PinchProblem(run=False)
+            j.load(jf)
+            r_json = j.target()
+            m = pp.PinchProblem(run=False)
+            m.load(pp.TargetInput.model_validate(json.loads(json.dumps(d))))
+            m._project_name = tmp.name
+            r_model = m.target()
+            plain = json.loads(json.dumps(d))
+            for rec in plain["streams"] + plain["utilities"]:
+                for k2, v2 in list(rec.items()):
+                    if isinstance(v2, dict) and "value" in v2:
+                        rec[k2] = v2["value"]
+            r_plain = pinch_analysis_service(plain, project_name=tmp.name)
+        # (the project / site name differs between channels -- directory name, file stem, "Untitled" -- and is not part of the problem)
+        site = lambda r: [t.name.split("/")[0] for t in r.targets if t.name.endswith("/Total Site Target")][0]
+        key = lambda r: sorted(("<site>/" + t.name.split("/", 1)[-1] if t.name.split("/")[0] == site(r) else t.name, round(float(_v(t.Qh)), 6), round(float(_v(t.Qc)), 6),
+                                round(float(_v(t.Qr)), 6)) for t in r.targets)
         h.check("csv_bundle_and_dictionary_give_the_same_targets", key(r_csv) == key(r_dict))
+        h.check("csv_pair_gives_the_same_targets", key(r_pair) == key(r_dict))
+        h.check("json_file_gives_the_same_targets", key(r_json) == key(r_dict))
+        h.check("validated_model_gives_the_same_targets", key(r_model) == key(r_dict))
+        h.check("plain_numbers_give_the_same_targets_as_value_with_unit_objects", key(r_plain) == key(r_dict))
         h.check("csv_bundle_has_every_stream_and_utility", len(loaded["streams"]) == len(streams) and len(loaded["utilities"]) == len(utilities))
     finally:
         shutil.rmtree(tmp, ignore_errors=True)
@@ -278,8 +304,8 @@ def _own_obligations():
         Obligation("C16.sheets.b", _ob_sheets(3), kind="bounded", bound=f"every history of 3 requests over a pool of {len(NAME_POOL)} adversarial names (exhaustive)",
                    functions=[ex._unique_sheet_name, ex._sanitize_sheet_name], max_paths=100000),
         Obligation("C16.sheets.many.b", ob_sheets_many, kind="bounded", bound="15 successive requests sharing their first 31 characters, four base names", functions=[ex._unique_sheet_name]),
-        Obligation("C16.csv_channel.b", ob_csv_channel, kind="bounded", bound="one concrete three-stream problem (smoke obligation on the installed pandas)",
-                   functions=[pp.PinchProblem.load]),
+        Obligation("C16.csv_channel.b", ob_csv_channel, kind="bounded", bound="one concrete three-stream problem through six channels: dictionary (value-with-unit and plain numbers), CSV directory, CSV pair, JSON file, validated model",
+                   functions=[pp.PinchProblem.load], doc="CHANNELS give the same targets (native, installed pandas); the workbook channel is not exercised"),
     ]
 
 
